@@ -6,7 +6,6 @@ import (
 	"fmt"
 	"os"
 	"runtime"
-	"sort"
 	"strconv"
 	"strings"
 	"time"
@@ -384,7 +383,7 @@ func (co *coord) runBox(bi int, deadline time.Time) *boxStats {
 		}
 		addSample("deepest path", deepest)
 		for _, b := range []int{bit(fCommitOlderTerm), bit(fTruncation), bit(fSnapApplied), bit(fConfApplied), bit(fTwoLeaders)} {
-			if id, ok := firstWith[b]; ok && len(co.samples) < 14 {
+			if id, ok := firstWith[b]; ok && len(co.samples) < 12 {
 				addSample("first path with "+flagNames[b], id)
 			}
 		}
@@ -519,6 +518,20 @@ func run(prop string) int {
 	cov["boxes"] = co.stats
 	cov["violating_transitions"] = co.nviol
 	cov["workers"] = co.pool.N
+	execs, hits, refeeds, validated, look := 0, 0, 0, 0, 0
+	for _, st := range co.stats {
+		execs += st.Sim.Execs
+		hits += st.Sim.Hits
+		refeeds += st.Sim.ThawFeeds
+		validated += st.Sim.Validated
+		look += st.Sim.Lookahead
+	}
+	cov["library_calls"] = map[string]int{"node_transitions_executed_by_a_RawNode": execs, "node_transitions_answered_from_memo": hits,
+		"inputs_refed_to_rebuild_a_RawNode_from_its_history": refeeds, "states_revalidated_straight_line_without_memo": validated}
+	cov["lookahead_states_electable_without_committed_entry"] = look
+	cov["explanation"] = "transition function = the real raft.RawNode. A transition of the group is one event applied to one member (Step/Campaign/Propose/Tick/... plus the complete handling of the Ready structs). " +
+		"A member's state is a deterministic function of its own input history, so each distinct (input history, input) pair is executed by a RawNode once per worker process and its observable result (persisted log, HardState, Status, votes, emitted messages, applied entries) is memoised; " +
+		"traces_validated_against_impl counts group transitions, library_calls says how many RawNode executions they were composed from; one expanded state in 64 is re-executed straight-line on fresh RawNodes without the memo and must give the same state hash; every counterexample is re-executed that way 5 times before it is reported."
 	cov["state_hash"] = "SHA-1 of the canonical serialisation truncated to 64 bit (hash compaction)"
 	if len(co.internal) > 0 {
 		cov["harness_errors"] = co.internal
@@ -541,6 +554,8 @@ func run(prop string) int {
 		"MemoryStorage stands for the persistent store; everything written to it survives a crash",
 		"states are de-duplicated on a 64-bit hash of the canonical serialisation",
 		"three RawNode fields not exposed by Status() are read through reflection offsets for the state key: prs.Votes, electionElapsed; randomizedElectionTimeout is written (pinned)",
+		"a member's behaviour depends only on its own input history (no shared mutable state between RawNodes), which is what makes per-member memoisation sound; checked by sampled straight-line re-execution",
+		"Box B de-duplicates on (state, FIFO order of the pool) with the minimum number of deviations; Box A on (state, multiset of the pool)",
 	}
 	code := co.rep.Finish(cov, assumptions)
 	if len(co.internal) > 0 || flaky {
@@ -551,6 +566,5 @@ func run(prop string) int {
 			return 2
 		}
 	}
-	_ = sort.Strings
 	return code
 }
